@@ -47,7 +47,7 @@ def h_rest_auth_frontend_frontend_go : Nat := 0x2e0a6aa4be0681b2
 def h_rest_auth_frontend_server_server_go : Nat := 0x60a027172e5ae808
 
 /-- hash of the normalised skeleton of * (internal/config/config.go) -/
-def h_rest_auth_config_config_go : Nat := 0xf5b12a3b078c41ff
+def h_rest_auth_config_config_go : Nat := 0xb0b482f837a8d4c3
 
 /-- hash of the normalised skeleton of * (internal/frontend/gen/restapi/configure_blackdagger.go) -/
 def h_rest_auth_frontend_gen_restapi_configure_blackdagger_go : Nat := 0x3b291ce73b57afae
